@@ -45,6 +45,7 @@ type storeCfg struct {
 	ValCache     bool
 	WConfig      bool
 	ExistCache   bool // W-config only: the local store behind an existence_caching decorator
+	Demux        bool // W-config only: behind a demultiplexer that maps every name N to tenant1/N
 	MinEpoch     time.Duration
 	RetryIvl     time.Duration
 }
